@@ -499,7 +499,7 @@ theorem disconnect_keeps_reported_grad (h : Heap) (us : List Nat) (p : Nat)
   have hcond : ((h.t p).base.isSome = true ∧ (h.t p).creator.isNone = true) := ⟨hb, hc⟩
   -- the heap after the disconnect of `p`
   let g := gradPropObj h.fuel h p
-  let h1 := g.1.modT p fun t => { t with base := none, grad := g.2.map (·.1), gradObj := (g.2.map (·.2)).getD t.gradObj, viewGrad := none }
+  let h1 := g.1.modT p fun t => { t with base := none, grad := g.2.map (·.1), gradObj := p, viewGrad := none }
   have h1p : (h1.t p).base = none ∧ (h1.t p).grad = g.2.map (·.1) := by simp [h1]
   have e : h' = (us.foldl (fun h v =>
       let tv := h.t v
